@@ -46,16 +46,22 @@ OBLIGATIONS = [
     {"id": "C10_Q4_repaired", "theorem": "Iora.C10.Q4_repaired", "kind": "proved", "statement": "no schedule of the repaired class ends in a lost wake-up"},
     {"id": "C10_Q4_F01", "theorem": "Iora.C10.Q4_refuted_for_unrepaired_close", "kind": "proved", "finding": "F01",
      "statement": "the class as found (close() flips _closed outside the mutex) has a 6-step schedule ending in a lost wake-up"},
+    {"id": "C10_broadcast_generic", "theorem": "Iora.C10.broadcast_no_lost_wakeup", "kind": "proved",
+     "statement": "GENERIC (any monitor program over one mutex satisfying Monitor.Broadcast: waits under the mutex in the step that found the predicate false, data changed only by the holder, whoever makes a predicate true owes the notifyAll): after every schedule, in a dead-locked state every sleeper's predicate is false"},
+    {"id": "C10_broadcast_inv", "theorem": "Iora.C10.broadcast_invariant", "kind": "proved",
+     "statement": "GENERIC: in every reachable state every sleeper's predicate is false or a ready thread still owes the broadcast"},
+    {"id": "C10_Q3_instance", "theorem": "Iora.C10.Q3_close_is_broadcast_instance", "kind": "proved",
+     "statement": "the queue's close() path (predicate _closed, two notify_all) is an instance of the generic broadcast theorem: nobody sleeps on a closed queue in a dead-locked state"},
     {"id": "C10_skel_conforms", "theorem": "Iora.C10.skeleton_conforms", "kind": "proved",
      "statement": "the lock/notify skeleton extracted from blocking_queue.hpp equals the one the monitor model mirrors (decide)"},
     {"id": "C10_skel_disciplined", "theorem": "Iora.C10.skeleton_disciplined", "kind": "proved",
      "statement": "every write of a wait-predicate variable is under _mutex and followed by the matching notify; waits and deque accesses hold _mutex (decide over the extracted skeleton)"},
 ]
 LEAN_MODULES = ["IoraModel.Props.C10", "IoraModel.Lemmas.RingBuffer", "IoraModel.Lemmas.RingSpsc", "IoraModel.Lemmas.BlockingQueue",
-                "IoraModel.Lemmas.BlockingQueueLogs", "IoraModel.Model.RingBuffer", "IoraModel.Model.RingSpsc", "IoraModel.Model.Monitor",
+                "IoraModel.Lemmas.BlockingQueueLogs", "IoraModel.Lemmas.MonitorBroadcast", "IoraModel.Lemmas.BlockingQueueBroadcast", "IoraModel.Model.RingBuffer", "IoraModel.Model.RingSpsc", "IoraModel.Model.Monitor",
                 "IoraModel.Model.BlockingQueue", "IoraModel.Model.BqSkel", "IoraModel.Gen.Orders", "IoraModel.Gen.BqSkel"]
 NOT_PROVED = [
-    "generic theorem over skeletons (`Disciplined sk -> no lost wake-up` for EVERY monitor program instantiated from sk): proved for the blocking-queue model only; the skeleton tie is the decide-equality `skeleton_conforms` + `skeleton_disciplined`",
+    "generic discipline theorem: PROVED for the broadcast (notify_all) discipline over any monitor program (Lemmas/MonitorBroadcast.lean; the queue's close() path is an instance). NOT generic: wake-ups by notify_one - their soundness is a counting argument over a class-specific resource (items resp. free slots vs. wake-ups in the pipeline, InvK.credNE/credNF), proved for the blocking-queue model only; the link from the extracted skeleton to the model is the decide-equality `skeleton_conforms` (+ `skeleton_disciplined`), not a theorem over all programs with that skeleton",
     "strict linearizability of a PARTIAL tryPushBatch to an atomic `push min(count, room)` is false (counterexample in the docstring of R2_refusals_genuine); proved instead: conservative refinement (prefix accepted, FIFO, bounded) for every interleaving incl. stale counter reads",
     "SPSC model uses natural-number counters (64-bit overflow excluded by hypothesis; sequential R1 uses UInt64 and states the hypothesis on the history)",
     "concurrent use of size()/empty()/full()/clear()/resize() of the rings (documented as approximate resp. requiring quiescence) is not part of the SPSC model",
